@@ -1076,3 +1076,134 @@ package kcache
   implements kcache.Controller.Done
   requires (and (not (= {c} vnil)) (not (= {c.lc} vnil)))
 @*/
+
+/*@ func kcache.newSubscription
+  props C11 C08 C05
+  theory wiring
+  fresh result
+  requires (and (not (= {log} vnil)) (not (= {readych} vnil)))
+  at go(WatchChannel) assert [stops-when-its-creator-shuts-down] (= $0 {stopch})
+  at go(run) assert [run-starts-with-valid-fresh-state] (and (not (= {s.inch} vnil)) (not (= {s.outch} vnil)) (not (= {s.lc} vnil)) (not (= {s.log} vnil))
+        (not (= {s.inch} {s.outch})) (not {closed(s.outch)}) (= (slen {sent(s.outch)}) 0) (= (slen {rcvd(s.inch)}) 0))
+  ensures [is-subscription] (and (not (= result vnil)) (= (dyntype result) |ty!*kcache._subscription|))
+  ensures [ready-and-cache-are-the-creators] (and (= (sub-ready result) {readych}) (= (sub-cache result) {cache}))
+@*/
+
+/*@ func kcache.newPublisher
+  props C11 C08 C05
+  theory wiring
+  fresh result
+  requires (and (not (= {log} vnil)) (not (= {parent} vnil)))
+  at go(run) assert [run-starts-with-valid-state] (and (not (= {s.parent} vnil)) (not (= {s.subscribech} vnil)) (not (= {s.unsubscribech} vnil))
+        (not (= {s.subscriptions} vnil)) (not (= {s.lc} vnil)) (not (= {s.log} vnil)) (forall ((x V)) (not (select {dom(s.subscriptions)} x))))
+  ensures [is-publisher-of-parent] (and (not (= result vnil)) (= (dyntype result) |ty!*kcache.publisher|) (= (|F!kcache.publisher!parent| result) {parent}))
+  ensures [ready-and-cache-are-the-parents] (and (= (sub-ready result) (sub-ready {parent})) (= (sub-cache result) (sub-cache {parent})))
+@*/
+
+/*@ neverclosed kcache.publisher.subscribech kcache.publisher.unsubscribech
+@*/
+/*@ chaninv kcache.publisher.subscribech
+  requires (not (= $val vnil))
+@*/
+/*@ chaninv kcache.publisher.unsubscribech
+  requires (not (= $val vnil))
+@*/
+
+/*@ func (*kcache.publisher).createSubscription
+  props C11 C08 C05 C12
+  theory wiring
+  requires (and (not (= {s} vnil)) (not (= {s.parent} vnil)) (not (= {s.subscriptions} vnil)) (not (= {s.lc} vnil)) (not (= {s.log} vnil))
+        (not (= {s.unsubscribech} vnil)))
+  modifies s.subscriptions[]
+  at call(newSubscription) assert [child-stops-when-the-publisher-shuts-down] (= $1 (lc-stopping {s.lc}))
+  at call(newSubscription) assert [child-ready-and-cache-are-the-parents] (and (= $2 (sub-ready {s.parent})) (= $3 (sub-cache {s.parent})))
+  ensures [new-subscription-registered] (and (not (= result vnil)) (select {dom(s.subscriptions)} result)
+        (forall ((x V)) (=> (not (= x result)) (= (select {dom(s.subscriptions)} x) (select (old {dom(s.subscriptions)}) x)))))
+  ensures [ready-is-the-parents] (= (sub-ready result) (sub-ready {s.parent}))
+@*/
+
+/*@ func (*kcache.publisher).run
+  props C05 C11 C12 C10
+  theory wiring lists
+  requires [valid-s] (and (not (= {s} vnil)) (not (= {s.parent} vnil)) (not (= {s.subscribech} vnil)) (not (= {s.unsubscribech} vnil))
+        (not (= {s.subscriptions} vnil)) (not (= {s.lc} vnil)) (not (= {s.log} vnil)))
+  requires [no-subscriptions-yet] (forall ((x V)) (not (select {dom(s.subscriptions)} x)))
+  requires [has-closed-nothing] (forall ((x V)) (not (select $closed x)))
+  modifies s.subscriptions[]
+  ghost lc : Int := 0
+  ghost lastEvt : V := vnil
+  ghost parentDone : Bool := false
+  at recv(Events) set lastEvt := $val
+  at call(distributeEvent) assert [publishes-the-parent-event-unmodified] (= $1 lastEvt)
+  at call(distributeEvent) assert [still-running] (= lc 0)
+  at call(createSubscription) assert [subscriptions-are-created-only-while-running] (= lc 0)
+  at call(ShutdownInitiated) assert [shutdown-initiated-once] (= lc 0)
+  at call(ShutdownInitiated) set lc := 1
+  at recv(Done) set parentDone := true
+  at call(ShutdownCompleted) assert [all-subscriptions-gone-and-parent-done-before-completing] (and (= lc 1) parentDone)
+  loop 1 inv [running] (and (= lc 0) (not (select {dom(s.subscriptions)} vnil)))
+  loop 2 inv [draining] (= lc 1)
+@*/
+
+/*@ func (*kcache.publisher).Subscribe
+  props C05 C12
+  requires (and (not (= {s} vnil)) (not (= {s.subscribech} vnil)) (not (= {s.lc} vnil)) (not {closed(s.subscribech)}))
+@*/
+/*@ func (*kcache.publisher).Close
+  props C11
+  requires (and (not (= {s} vnil)) (not (= {s.parent} vnil)))
+  at call(Close) assert [closes-the-subscription-that-feeds-it] (= $recv {s.parent})
+@*/
+/*@ func (*kcache.filterSubscription).Close
+  props C11
+  requires (and (not (= {s} vnil)) (not (= {s.parent} vnil)))
+  at call(Close) assert [closes-the-subscription-that-feeds-it] (= $recv {s.parent})
+@*/
+/*@ func (*kcache.filterController).Close
+  props C11
+  requires (and (not (= {c} vnil)) (not (= {c.parent} vnil)))
+  at call(Close) assert [closes-its-own-publisher] (= $recv {c.parent})
+@*/
+/*@ func (*kcache._subscription).Close
+  props C11
+  requires (and (not (= {s} vnil)) (not (= {s.lc} vnil)))
+  at call(ShutdownAsync) assert [shuts-down-its-own-lifecycle] (= $recv {s.lc})
+@*/
+/*@ func (*kcache.controller).Close
+  props C11 C14
+  requires (and (not (= {c} vnil)) (not (= {c.lc} vnil)))
+  at call(Shutdown) assert [shuts-down-its-own-lifecycle-without-an-error] (and (= $recv {c.lc}) (= $0 vnil))
+@*/
+/*@ func (*kcache.monitor).Close
+  props C11
+  requires (and (not (= {m} vnil)) (not (= {m.sub} vnil)))
+  at call(Close) assert [closes-its-own-subscription] (= $recv {m.sub})
+@*/
+
+/*@ func kcache.newFilterSubscription
+  props C08 C11 C06
+  theory wiring filters
+  fresh result
+  requires (and (not (= {log} vnil)) (not (= {parent} vnil)) (not (= {f} vnil)))
+  requires [deferred-subscriptions-start-with-a-filter-that-rejects-everything] (=> {deferReady} (rejectsAll {f}))
+  at call(newCache) assert [private-cache-stops-with-the-subscription] (= $2 (lc-stopping {lc}))
+  at call(newCache) assert [private-cache-starts-with-the-same-filter] (= $3 {f})
+  at go(run) assert [run-starts-with-valid-fresh-state] (and (not (= {s.parent} vnil)) (not (= {s.cache} vnil)) (not (= {s.lc} vnil)) (not (= {s.log} vnil))
+        (not (= {s.readych} vnil)) (not (= {s.refilterch} vnil)) (not (= {s.outch} vnil)) (not (= {s.filter} vnil))
+        (not {closed(s.readych)}) (not {closed(s.outch)}) (not (= {s.readych} {s.outch}))
+        (=> {s.deferReady} (rejectsAll {s.filter})))
+  ensures [is-filter-subscription] (and (not (= result vnil)) (= (dyntype result) |ty!*kcache.filterSubscription|) (= (|F!kcache.filterSubscription!parent| result) {parent}))
+@*/
+
+/*@ func kcache.newCache
+  props C11 C15 C01
+  theory cachereq
+  fresh result
+  requires (and (not (= {log} vnil)) (not (= {filter} vnil)))
+  at go(WatchChannel) assert [stops-when-its-creator-shuts-down] (= $0 {stopch})
+  at go(WatchContext) assert [stops-with-its-context] (= $0 {ctx})
+  at go(run) assert [run-starts-with-an-empty-well-formed-cache] (and (not (= {c.items} vnil)) (not (= {c.filter} vnil)) (not (= {c.log} vnil)) (not (= {c.lc} vnil))
+        (not (= {c.syncch} vnil)) (not (= {c.updatech} vnil)) (not (= {c.refilterch} vnil)) (not (= {c.listch} vnil)) (not (= {c.getch} vnil))
+        (= {c.filter} {filter}) (WFitems {dom(c.items)} {val(c.items)}))
+  ensures (not (= result vnil))
+@*/
